@@ -5,6 +5,10 @@ V = os.path.dirname(os.path.dirname(os.path.abspath(__file__)))
 props = [json.loads(l) for l in open(os.path.join(V, 'properties.jsonl'))]
 
 CHECKS = {
+ 'C06': dict(level='model_checking', design='3/C06',
+   text='Push.tla models the parallel driver (per-worker queues from the name components, Consider = read earliest/apply/fetch_min, barrier, private rollback incl. renames, all rejects before any save, save micro-operations unlink/mkdir -p/create, backups, cleaning by the main thread after the join, recording); TLC checks over 9720 scenarios x ALL interleavings of 2 (thorough: 3) workers that every terminating behaviour leaves the reference Outcome. Binding: a stratified sample of scenarios is run by the real binary with 1,2,3,4,8,16 threads (free schedule) and under scripted schedules enforced by the baton hooks at every consider / file-operation point; snapshots must equal the single-threaded one and the reference, and the hook trace of every forced run must be accepted by TLC as a behaviour of Push.tla (Trace_Push).',
+   note='Trusted: TLC, hooks placed at every shared-state access, scen.py. Real OS schedules are not enumerated; model interleavings are, and sampled ones are forced on the binary.',
+   technique='TLA+ driver model checked by TLC over all interleavings + forced-schedule replay and trace validation of the real binary'),
  'C18': dict(level='fault_enumeration', design='3/C18',
    text='Every output operation of a run fails once: (i) the guarded hook counter fails the k-th operation for k = 1..n (unlink, mkdir, create, chmod, write, readdir, rmdir, reject create/write, backup mkdir/create/write, .pc mkdir, applied-patches open/write) in the sequential driver and, pinned by a round-robin baton script, in the parallel driver; (ii) independently strace -e inject fails the j-th call of every output system call of the sequential run (ENOSPC; thorough also EIO, EACCES). Oracle: non-zero exit, no crash, message names the file, no patch recorded; recorded hook traces must not contain an append after the fault. The Push.tla model states the same as an invariant under a FailOp action.',
    note='Trusted: hooks sit on every output path (cross-checked by the hook-free strace injector), strace fault injection.',
